@@ -577,7 +577,7 @@ class C15(Check):
         viol = []
         detail = {"files": {"x.ms": src}, "res": res.brief(), "expected_lines": it.out}
         ops = sorted({k for k in _ops(tree)})
-        if res.exit != 0 and "Did not compile" in res.err:
+        if driver.compile_rejected(res):
             return {"outcome": "rejected", "nontrivial": False, "tags": ["rejected"], "show": res.out[-300:]}
         if not ok:
             return {"outcome": "model-failure", "nontrivial": False, "tags": ["model-failure"]}
